@@ -1,6 +1,8 @@
 """C04 - data type codec is the exact CiA 301 representation and never silently wraps."""
-import math
+import logging, math
 from vlib.obs import S, Err, guarded, gz, gzlist, gopt, E_FUEL
+
+logging.disable(logging.CRITICAL)   # the library warns about values outside the advisory limits
 
 PROP = "C04"
 MODEL_VO = ["theories/Model/Codec.vo"]
@@ -62,10 +64,12 @@ def float_to_bits(x, eb, mb):
     return (s << (eb + mb)) | (E << mb) | int(mant)
 
 
-def _var(dt):
+def _var(dt, lim=None):
     from canopen.objectdictionary import ODVariable
     v = ODVariable("v", 0x2000, 0)
     v.data_type = dt
+    if lim is not None:      # advisory limits (LowLimit / HighLimit of the EDS): the codec must not depend on them
+        v.min, v.max = lim
     return v
 
 
@@ -77,7 +81,7 @@ def canon_value(v):
 
 def impl(c):
     k = c["kind"]
-    var = _var(c["dt"])
+    var = _var(c["dt"], c.get("lim"))
     if k == "enc_int":
         return guarded(lambda: bytes(var.encode_raw(c["v"])))
     if k == "enc_str":
@@ -352,6 +356,19 @@ def gen_cases(rng, tier):
                 cases.append(dict(kind="enc_int", dt=dt, v=v, model=(w == 8)))
             for u in range(1 << w):
                 cases.append(dict(kind="dec_enc", dt=dt, bs=list(u.to_bytes(w // 8, "little")), model=(w == 8)))
+    # configured limits (ODVariable.min / .max) are advisory: a third of the integer cases carry limits, mostly
+    # such that the value lies outside them; model and oracle are those of the case without limits
+    for c in cases:
+        if c["kind"] in ("enc_int", "enc_pair", "dec_enc") and c["dt"] in INT_TYPES and rng.random() < 0.34:
+            signed, w = INT_TYPES[c["dt"]]
+            lo, hi = rng_of(signed, w)
+            v = c.get("v", rng.randint(lo, hi))
+            r = rng.random()
+            if r < 0.4: lim = [v + 1, v + 1 + rng.randint(0, 1000)]
+            elif r < 0.8: lim = [v - 1 - rng.randint(0, 1000), v - 1]
+            elif r < 0.9: lim = [lo, hi]
+            else: lim = [rng.randint(lo, hi), None]
+            c["lim"] = lim
     return cases
 
 
